@@ -3,12 +3,30 @@ use std::path::PathBuf;
 
 fn main() {
     let args: Vec<String> = std::env::args().skip(1).collect();
-    if args.len() < 2 && args.first().map(|a| a != "gen-fuzz-seeds" && a != "dump-fuzz" && a != "frag-init").unwrap_or(true) {
+    if args.len() < 2 && args.first().map(|a| a != "gen-fuzz-seeds" && a != "dump-fuzz" && a != "frag-init" && a != "case-digest").unwrap_or(true) {
         eprintln!("usage: verif <Cxx> <quick|thorough> | verif <Cxx> --replay <file>");
         std::process::exit(2);
     }
     if args[0] == "gen-fuzz-seeds" {
         harness::fuzz::write_seeds(&PathBuf::from(std::env::var("VERIF_ROOT").unwrap_or_else(|_| "/verif".into())));
+        return;
+    }
+    if args[0] == "case-digest" {
+        // verif case-digest <ValidCase json>: every return value (with its error text) and the output bytes of the history, as
+        // computed in this process and its environment
+        harness::exec::install_panic_hook();
+        match serde_json::from_str::<harness::scenario::ValidCase>(args.get(1).map(|s| s.as_str()).unwrap_or("")) {
+            Ok(c) => {
+                let l = harness::scenario::lower(&c);
+                let r = harness::exec::run_history(&l.cfg, &l.ops);
+                println!("{:?}", r.results);
+                println!("{}", r.out.iter().map(|x| format!("{:02x}", x)).collect::<String>());
+            }
+            Err(e) => {
+                eprintln!("bad case: {}", e);
+                std::process::exit(2);
+            }
+        }
         return;
     }
     if args[0] == "frag-init" {
